@@ -265,7 +265,11 @@ def rule_concatenate(ctx):
                 okn, sub = True, newaxes[1]
                 if sub[0] == 'call' and T.dotted(sub[1]) == 'list' and len(sub[2]) == 1:
                     sub = sub[2][0]
-            if okn:
+            first_axes = ('attr', ('sub', joined, const(0)), 'axes')
+            if not okn and newaxes[0] == 'setitem' and newaxes[2] == AXU and newaxes[3] == cax[0] and newaxes[1] == ('call', ('name', 'list'), (first_axes,), ()):
+                # third spelling: a fresh copy of all the axes of the first array with the k-th one replaced by the concatenated axis
+                okn, sub = True, None
+            if okn and sub is not None:
                 okn = sub[0] == 'comp' and sub[3][0][1] == ('call', ('name', 'enumerate'), (('attr', ('sub', joined, const(0)), 'axes'),), ()) \
                     and sub[3][0][2] == (T.mkcmp('!=', ('idx', ('attr', ('sub', joined, const(0)), 'axes'), sub[3][0][0]), AXU),)
             if not okn:
@@ -280,6 +284,15 @@ def rule_concatenate(ctx):
                     c = e.a
                     axn = T.kw(c, 'axis')
                     strict = dict(c[3]).get('**')
+                    if axn is not None and axn[0] == 'elem' and axn[1][0] == 'comp' and len(axn[1][3]) == 1 and e.loops:
+                        # other spelling: the loop runs over the names of the first array's dimensions other than the concatenated one
+                        comp = axn[1]
+                        src_, conds = comp[3][0][1], comp[3][0][2]
+                        if not (comp[1] == 'list' and comp[2] == ('elem', src_, comp[3][0][0]) and src_[0] == 'attr' and src_[2] == 'dims' and src_[1][0] == 'sub'
+                                and src_[1][2] == const(0) and len(conds) == 1 and conds[0][0] == 'cmp' and conds[0][1] == '!=' and comp[2] in conds[0][2:4]
+                                and strict is not None and T.container_lookup(strict, const('strict')) == T.CONST_TRUE):
+                            good = False
+                        continue
                     if not (axn is not None and axn[0] == 'attr' and axn[2] == 'name' and axn[1][0] == 'elem' and strict is not None
                             and T.container_lookup(strict, const('strict')) == T.CONST_TRUE and e.loops):
                         good = False
